@@ -853,6 +853,10 @@ class Walker:
                 return ('static', c['static'])
             if c.get('opaque') == '()':
                 return ('const', 'unit')
+            if c.get('promoted') and self.facts is not None:
+                t = self.eval_promoted(c['promoted'][0], c['promoted'][1])
+                if t is not None:
+                    return t
             return ('cst', c.get('ty'), c.get('opaque'))
         p = op_place(op)
         if p is None:
@@ -969,6 +973,26 @@ class Walker:
         if t[0] in ('mref', 'sref'):
             return simp(('ref', self.as_value(env, self.read_key(env, t[1]))))
         return t
+
+    def eval_promoted(self, path, idx):
+        """value of a promoted constant (`&Action::Accept`, `&"lit"` ..): its tiny straight-line body is evaluated once"""
+        cache = self.facts.__dict__.setdefault('_promoted', {})
+        key = (path, idx)
+        if key not in cache:
+            cache[key] = None
+            owner = self.facts.bodies.get(path)
+            pl = (owner.d.get('promoted') or []) if owner is not None else []
+            if idx < len(pl) and getattr(self, 'inline_depth', 0) < 4:
+                d = {'path': '%s::promoted[%d]' % (path, idx), 'name': '', 'kind': 'promoted', 'file': owner.file, 'lo': owner.lo, 'hi': owner.hi,
+                     'blocks': pl[idx]['blocks'], 'locals': pl[idx]['locals'], 'arg_count': 0}
+                w = Walker(Body(d, owner.crate), self.facts, max_paths=2)
+                w.inline_depth = getattr(self, 'inline_depth', 0) + 1
+                ps = w.run()
+                if len(ps) == 1 and ps[0].end[0] == 'return' and not w.overflow and not ps[0].conds:
+                    v = ps[0].end[1]
+                    if not term_has(v, lambda x: isinstance(x, tuple) and x and x[0] in ('uninit', 'param', 'mutated', 'opaque')):
+                        cache[key] = v
+        return cache[key]
 
     def closure_alternatives(self, clo, argterms):
         """[(conds, events, result)] of a pure, loop-free closure applied to argterms, expressed in the caller's terms; None if the
